@@ -132,15 +132,20 @@ def simplify : Num → Except Err Num
   | int n => .ok (int n)
   | frac q => if q.num % (q.den : Int) == 0 then .ok (int (q.num / (q.den : Int))) else .ok (frac q)
   | flt x =>
-    if x.isNaN then .ok (flt x)
-    else if !x.isFinite then .error .overflow
-    else if x.floor == x then .ok (int (floatToRat x).num) else .ok (flt x)
+    if x.isFinite then (if x.floor == x then .ok (int (floatToRat x).num) else .ok (flt x))
+    else if x.isNaN then .ok (flt x)     -- modf(nan) = (nan, nan): returned unchanged
+    else .error .overflow                -- int(inf)
 
 /-- The canonical delivery of an exact rational: int when integral, reduced fraction otherwise. -/
 def canon (q : Rat) : Num := if q.den = 1 then int q.num else frac q
 
 def isExact : Num → Bool
   | flt _ => false
+  | _ => true
+
+/-- not an infinity or NaN -/
+def finite : Num → Bool
+  | flt x => x.isFinite
   | _ => true
 
 /-- Floored modulo on rationals: `a - b * floor(a / b)` (Fraction.__mod__). -/
@@ -154,7 +159,9 @@ def fmodFloat (x y : Float) : Float :=
   if m == 0 then (if y < 0 then -0.0 else 0.0)
   else if (y < 0) != (m < 0) then m + y else m
 
-def ratPowNat (q : Rat) (n : Nat) : Rat := q ^ n
+/-- `Fraction.__pow__` with a non-negative integer exponent: numerator and denominator are
+    raised separately (no intermediate normalisation — they stay coprime) -/
+def ratPowNat (q : Rat) (n : Nat) : Rat := mkRat (q.num ^ n) (q.den ^ n)
 
 inductive BinOp where
   | add | sub | mul | div | mod | pow
@@ -230,8 +237,8 @@ def pyPow (a b : Num) : Except Err Num := do
     else if x = 0 then .error .divZero
     else do let xf ← a.toFloat; let yf ← b.toFloat; fin (xf.pow yf)
   | frac q, int y =>
-    if y ≥ 0 then .ok (frac (q ^ y.toNat))
-    else if q = 0 then .error .divZero else .ok (frac ((1 / q) ^ (-y).toNat))
+    if y ≥ 0 then .ok (frac (ratPowNat q y.toNat))
+    else if q = 0 then .error .divZero else .ok (frac (ratPowNat (1 / q) (-y).toNat))
   | flt _, _ | _, flt _ | _, frac _ => do
     -- float power (a Fraction exponent reaching here is non-integral: values are simplified)
     let x ← a.toFloat; let y ← b.toFloat
